@@ -148,7 +148,11 @@ func runC17(c *core.Ctx) {
 	// For every base and every valid edit that only ADDS units (new types, extend blocks): load the base, inspect, a refused
 	// load (its first types are added to the tables before an undefined reference refuses it), inspect, load the added units,
 	// inspect against the grown schema, a refused load again, inspect. Every inspection is the complete one above.
-	const refusedLoad = "type Apple7 { x: Int }\ntype Aardvark7 { y: Zq7Undefined }\ndirective @aaa7 on OBJECT\nextend type Apple7 { z: Int }\n"
+	const refusedLoad = "\"says a load that is refused\" scalar Time\n\"likewise\" scalar Int64\n\"likewise\" scalar Date\n" +
+		"type Apple7 { x: Int }\ntype Aardvark7 { y: Zq7Undefined }\ndirective @aaa7 on OBJECT\nextend type Apple7 { z: Int }\n"
+	// what the root says about the scalars every root has (their descriptions are the library's own, so compared with what the
+	// same root said before the refused load, not with the reference)
+	const scalarQuery = `{ t: __type(name: "Time") { kind name description } i: __type(name: "Int64") { kind name description } f: __type(name: "Float64") { description } d: __type(name: "Date") { kind name description } s: __type(name: "String") { description } }`
 	nHist := 0
 	for bi, b := range bases {
 		if len(b.WellFormed()) > 0 {
@@ -196,6 +200,10 @@ func runC17(c *core.Ctx) {
 					now    *sgen.Schema
 				}{{"", false, b}, {refusedLoad, true, b}, {later, false, v.Schema}, {refusedLoad, true, v.Schema}}
 				for i, stp := range steps {
+					scalarsBefore := ""
+					if stp.refuse {
+						scalarsBefore = string(toJSON(world.Canon(root.ResolveString(scalarQuery, "", nil))))
+					}
 					if stp.load != "" {
 						var lerr error
 						if pi := core.Safe(func() { lerr = root.ParseString(stp.load) }); pi != nil {
@@ -208,6 +216,13 @@ func runC17(c *core.Ctx) {
 							}
 							c.Count("later_load_refused") // C16's business (a schema in several loads); nothing to inspect
 							break
+						}
+					}
+					if stp.refuse {
+						if after := string(toJSON(world.Canon(root.ResolveString(scalarQuery, "", nil)))); after != scalarsBefore {
+							c.Outcome("diff:scalars-after-refused-load")
+							c.Violation("introspection-diff", map[string]string{"what": "scalar-description-after-refused-load", "strategy": st.String(), "custom_root": "false"},
+								map[string]interface{}{"schema": desc, "refused_load": stp.load, "before": scalarsBefore, "after": after, "query": scalarQuery})
 						}
 					}
 					c17Inspect(c, root, stp.now, fmt.Sprintf("%s [history step %d]", desc, i), b.SDL()+"\n# later load:\n"+later, st, true)
